@@ -82,5 +82,6 @@ pub fn specs(tier: &str) -> Vec<ExpSpec> {
         c2.short = Short::Always;
         v.push(ExpSpec::new(c2, alpha::mixed(cs), if th { 4 } else { 3 }));
     }
+    v.extend(crate::c03::fragmented_dir_specs(th));
     v
 }
